@@ -6,6 +6,8 @@
         -> "OK <canonical infoset>" | "ERR" | "FUEL"     (Model/XmlRead.v read_xml on the text)
            canonical infoset:  D <root> <public|~> <system>  items    items := <n> item*
                                item := T <hex> | E <name> <n attrs> (<name> <value>)* items
+     spec <gen> <indent> <keep_ws> <tree dump>
+        -> "SPEC <lang_ok> <node_ok> <items | NONE>"     (hypotheses and specified infoset of the theorems)
      esc <0|1 normalize> <hex> -> escape ; unesc <hex> -> "OK <hex>" | "NONE"
    The tree is the one the C built (dumped by the harness); token names are resolved to the rows of the
    regenerated tables (Gen/TablesData.v main_table) by row index and cross-checked against the dumped
@@ -104,6 +106,25 @@ let () =
            (match enc_xml l (gen_of g) (n_of_int (int_of_string ind)) (kw = "1") roots with
             | XOk b -> Printf.printf "OK %s\n" (hex_of_bytes b)
             | XErr e -> Printf.printf "ERR %s\n" (errname e)))
+      | "spec" :: g :: ind :: kw :: rest ->
+        (* specification side (Proofs/EncXmlProofs.v): "SPEC <lang_ok> <node_ok> <items|NONE>" for a single root *)
+        toks := Array.of_list rest; pos := 0;
+        let (l, roots) = parse_tree () in
+        (match l, roots with
+         | Some l, [root] ->
+           let ((lok, nok), info) = spec_doc l (gen_of g) (n_of_int (int_of_string ind)) (kw = "1") root in
+           let b = Buffer.create 256 in
+           let rec items l =
+             Buffer.add_string b (Printf.sprintf " %d" (List.length l));
+             List.iter (function
+               | XT t -> Buffer.add_string b (" T " ^ hex_of_bytes t)
+               | XE (n, a, ch) ->
+                 Buffer.add_string b (Printf.sprintf " E %s %d" (hex_of_bytes n) (List.length a));
+                 List.iter (fun (k, v) -> Buffer.add_string b (" " ^ hex_of_bytes k ^ " " ^ hex_of_bytes v)) a;
+                 items ch) l in
+           (match info with Some it -> items it | None -> Buffer.add_string b " NONE");
+           Printf.printf "SPEC %b %b%s\n" lok nok (Buffer.contents b)
+         | _ -> print_endline "SPEC false false NONE")
       | ["read"; h] ->
         (match read_xml_auto (bytes_of_hex h) with
          | ROk d ->
